@@ -185,6 +185,18 @@ def check_value(agg, p, tag="value"):
         bad("roundtrip-same-type", v.type(), back.type())
     elif str(back) != text:
         bad("roundtrip-same-text", text, str(back))
+    if k in ("int", "decimal"):
+        # every path that turns a number into text agrees with string()
+        s.interp.environment.put("v", v)
+        r = s.run("[string(v), '' + v, v + '', s('{v}'), "
+                  "'<' + v + '>', join([v], ',')]", "paths", fuel=50000)
+        agg.count("steps")
+        want = [text, text, text, text, "<" + text + ">", text]
+        got = core.from_value(s.interp.interpret(
+            "[string(v), '' + v, v + '', s('{v}'), '<' + v + '>', "
+            "join([v], ',')]", "paths")) if r[0] == "value" else list(r)
+        if got != want:
+            bad("one-text-form-on-every-path", want, got)
     return text
 
 
